@@ -28,3 +28,17 @@ pub fn it_any<T, F: Fn(&T) -> bool>(v: &Vec<T>, f: F) -> (r: bool)
 { unimplemented!() }
 
 } // verus!
+verus! {
+/// `v.iter().map(f).collect::<Result<Vec<_>, E>>()` on a slice: all elements mapped in order, first error returned
+#[verifier::external_body]
+pub fn it_try_map<T, U, E, F: Fn(&T) -> Result<U, E>>(v: &[T], f: F) -> (r: Result<Vec<U>, E>)
+    requires forall|i: int| 0 <= i < v@.len() ==> f.requires((&v@[i],))
+    ensures r is Ok ==> r->Ok_0@.len() == v@.len() && forall|i: int| 0 <= i < v@.len() ==> f.ensures((&v@[i],), Ok(#[trigger] r->Ok_0@[i]))
+{ unimplemented!() }
+/// `v.into_iter().map(f).collect::<Vec<_>>()`
+#[verifier::external_body]
+pub fn it_into_map<T, U, F: Fn(T) -> U>(v: Vec<T>, f: F) -> (r: Vec<U>)
+    requires forall|i: int| 0 <= i < v@.len() ==> f.requires((v@[i],))
+    ensures r@.len() == v@.len() && forall|i: int| 0 <= i < v@.len() ==> f.ensures((v@[i],), #[trigger] r@[i])
+{ unimplemented!() }
+} // verus!
